@@ -222,6 +222,9 @@ pub struct AdapterScript {
     pub strategy: StrategyV,
     pub strategy_ms: u32,
     pub loc: LocV,
+    /// discovery additionally blocks for this much *real* time (the wall clock advances, the virtual does not)
+    #[serde(default)]
+    pub discovery_real_ms: u32,
 }
 
 impl Default for AdapterScript {
@@ -237,6 +240,7 @@ impl Default for AdapterScript {
             strategy: StrategyV::Pick(0),
             strategy_ms: 0,
             loc: LocV::Echo,
+            discovery_real_ms: 0,
         }
     }
 }
@@ -307,6 +311,8 @@ pub struct Shared {
     write_waker: Option<Waker>,
     notify: Arc<Notify>,
     pub events: Vec<Event>,
+    /// (adapter kind, wall-clock second) at every adapter return
+    pub wall_marks: Vec<(&'static str, u64)>,
     pub server_end: Option<ServerEnd>,
     pub shutdown_called: bool,
 }
@@ -467,9 +473,11 @@ impl SimAdapters {
         s.events.push(Event::Call { t, kind, args });
     }
     fn ret(&self, kind: &'static str, ok: bool) {
+        let wall = std::time::SystemTime::now().duration_since(std::time::UNIX_EPOCH).map(|d| d.as_secs()).unwrap_or(0);
         let mut s = self.sh.lock().unwrap();
         let t = s.now_ms();
         s.events.push(Event::Return { t, kind, ok });
+        s.wall_marks.push((kind, wall));
     }
 }
 
@@ -532,6 +540,9 @@ impl DiscoveryAdapter for SimAdapters {
     async fn discover(&self) -> passage_adapters::Result<Vec<Target>> {
         self.call("discover", json!({}));
         latency(self.script.discovery_ms).await;
+        if self.script.discovery_real_ms > 0 {
+            std::thread::sleep(Duration::from_millis(u64::from(self.script.discovery_real_ms)));
+        }
         let r = match &self.script.discovery {
             Some(ts) => Ok(ts.iter().map(TargetSpec::to_target).collect()),
             None => Err(sim_err()),
@@ -859,6 +870,7 @@ pub enum EncResp {
 // ---------------------------------------------------------------------------------------------
 
 pub struct SimOutcome {
+    pub wall_marks: Vec<(&'static str, u64)>,
     pub events: Vec<Event>,
     pub end: ServerEnd,
     pub out: Vec<u8>,
@@ -1000,6 +1012,7 @@ where
             write_waker: None,
             notify: Arc::clone(&notify),
             events: Vec::new(),
+            wall_marks: Vec::new(),
             server_end: None,
             shutdown_called: false,
         }));
@@ -1065,6 +1078,7 @@ where
         cl.pump();
         let s = sh.lock().unwrap();
         SimOutcome {
+            wall_marks: s.wall_marks.clone(),
             events: s.events.clone(),
             end: s.server_end.clone().unwrap_or(ServerEnd::Hung),
             out: s.out.clone(),
